@@ -1,8 +1,9 @@
 /-
   SrcTieImpl — WHOLE implementation functions regenerated from the C++ source on every run
   (`SmoothModel/Gen/ImplSrc.lean`, written by tools/gen_src.py → tools/gen_impl.py from
-  include/smooth/detail/{so2,c1,tn,se2,so3,se3}.hpp) ARE the hand-written model functions the
-  property theorems are about.
+  include/smooth/detail/{so2,c1,tn,se2,so3,se3,galilei,se_k_3}.hpp) ARE the hand-written model functions
+  the property theorems are about.  TnImpl<N> and SE_K_3Impl<K> are tied for a symbolic dimension (every
+  `n`, every `k`); the loops over `K` are handled by induction (section `loops` below).
 
   Every statement is over an arbitrary `[Scalar α]` (Float, Float32, ℝ alike) and is proved
   definitionally: `rfl`, or entry by entry (`fin_cases` + `rfl`), after unfolding the model's
@@ -18,6 +19,7 @@
 import SmoothModel
 import SmoothModel.EigenSem
 import SmoothModel.Gen.ImplSrc
+import SmoothModel.Gen.BaseSrc
 import Mathlib.Tactic.FinCases
 import Mathlib.Data.Fintype.Basic
 import Mathlib.Data.Fin.Basic
@@ -25,6 +27,7 @@ import Mathlib.Tactic.SplitIfs
 
 open Scalar Lin EigenSem
 
+set_option linter.unusedSectionVars false
 namespace SrcTieImpl
 variable {α : Type} [Scalar α]
 
@@ -46,10 +49,17 @@ theorem manifest_eq : ImplSrc.manifest =
      "SO3.inverse", "SO3.log", "SO3.Ad", "SO3.exp", "SO3.hat", "SO3.vee", "SO3.ad", "SO3.dr_exp",
      "SO3.dr_expinv", "SO3.d2r_exp", "SO3.d2r_expinv",
      "SE3.setIdentity", "SE3.matrix", "SE3.composition", "SE3.inverse", "SE3.log", "SE3.Ad", "SE3.exp",
-     "SE3.hat", "SE3.vee", "SE3.ad", "SE3.calculate_q", "SE3.dr_exp", "SE3.dr_expinv"] := rfl
+     "SE3.hat", "SE3.vee", "SE3.ad", "SE3.calculate_q", "SE3.calculate_Q_dQ", "SE3.dr_exp", "SE3.dr_expinv",
+     "SE3.d2r_exp", "SE3.d2r_expinv",
+     "Galilei.setIdentity", "Galilei.matrix", "Galilei.composition", "Galilei.inverse", "Galilei.log",
+     "Galilei.Ad", "Galilei.exp", "Galilei.hat", "Galilei.vee", "Galilei.ad", "Galilei.calculate_r",
+     "Galilei.dr_exp", "Galilei.dr_expinv",
+     "SEK3.setIdentity", "SEK3.matrix", "SEK3.composition", "SEK3.inverse", "SEK3.log", "SEK3.Ad",
+     "SEK3.exp", "SEK3.hat", "SEK3.vee", "SEK3.ad", "SEK3.calculate_q", "SEK3.dr_exp",
+     "SEK3.dr_expinv"] := rfl
 theorem notTranslated_eq : ImplSrc.notTranslated =
     ["SO2.setRandom", "C1.setRandom", "Tn.setRandom", "SE2.setRandom", "SO3.setRandom", "SE3.setRandom",
-     "SE3.calculate_Q_dQ", "SE3.d2r_exp", "SE3.d2r_expinv"] := rfl
+     "Galilei.setRandom", "SEK3.setRandom"] := rfl
 omit [Scalar α] in
 theorem tail4_so3 (g : Vec α 7) : tail 4 g = SE3.so3 g := by tie_vec
 omit [Scalar α] in
@@ -65,5 +75,309 @@ theorem tail4_setSegment (v : Vec α 7) (w : Vec α 4) : tail 4 (setSegment v 3 
 omit [Scalar α] in
 theorem block00_setBlock (A : Mat α 6 6) (J : Mat α 3 3) : blockM 3 3 0 0 (setBlock A 0 0 J) = J := by
   tie_mat
+
+/-! ### storage views of Galilei (group `v p τ q`, tangent `b q s Ω`) -/
+omit [Scalar α] in
+theorem gal_tail4 (g : Vec α 11) : tail 4 g = Galilei.gq g := by tie_vec
+omit [Scalar α] in
+theorem gal_tail3 (a : Vec α 10) : tail 3 a = Galilei.tw a := by tie_vec
+omit [Scalar α] in
+theorem gal_head3 (a : Vec α 10) : head 3 a = Galilei.tb a := by tie_vec
+omit [Scalar α] in
+theorem gal_seg3 (a : Vec α 10) : segment 3 3 a = Galilei.tq a := by tie_vec
+omit [Scalar α] in
+theorem gal_tail3_set (v : Vec α 10) (w : Vec α 3) : tail 3 (setSegment v 7 w) = w := by tie_vec
+
+/-! ### loops over the symbolic template parameter `K` of `SE_K_3Impl<Scalar, K>` (`EigenSem.forLoop`)
+The ties of SE_K(3) hold for EVERY `k`: the loop of the source is kept as a loop by the translator and is
+related to the closed forms of the hand model (`SEK3.mkG`, `SEK3.mkT`, `SEK3.ofBlocks`) by induction over
+the iterations.  Only index arithmetic (`omega`) is used; entries of `α` are never rewritten. -/
+section loops
+variable {σ : Type}
+
+theorem forLoop_induct (K : Nat) (body : (i : Nat) → i < K → σ → σ) (init : σ)
+    (P : (j : Nat) → j ≤ K → σ → Prop) (h0 : P 0 (Nat.zero_le K) init)
+    (hs : ∀ j (hj : j < K) s, P j (Nat.le_of_lt hj) s → P (j + 1) hj (body j hj s)) :
+    P K (Nat.le_refl K) (forLoop K body init) := by
+  have key : ∀ j (h : j ≤ K), P j h (forLoopAux K body init j h) := by
+    intro j
+    induction j with
+    | zero => intro _; exact h0
+    | succ j ih => intro h; exact hs j h _ (ih (Nat.le_of_lt h))
+  exact key K (Nat.le_refl K)
+end loops
+
+omit [Scalar α] in
+theorem loop_congr {k : Nat} (w : (i : Nat) → i < k → Vec α 3) {i i' : Nat} (hi : i < k) (hi' : i' < k)
+    (e : i = i') {r r' : Nat} (hr : r < 3) (hr' : r' < 3) (er : r = r') :
+    w i hi ⟨r, hr⟩ = w i' hi' ⟨r', hr'⟩ := by subst e; subst er; rfl
+
+omit [Scalar α] in
+theorem forLoop_setSegment_get {n k : Nat} (w : (i : Nat) → i < k → Vec α 3)
+    (init : Vec α n) (idx : Fin n) :
+    (forLoop k (fun i hi v => setSegment v (3 * i) (w i hi)) init) idx =
+      if h : idx.val < 3 * k then w (idx.val / 3) (by omega) ⟨idx.val % 3, Nat.mod_lt _ (by decide)⟩
+      else init idx := by
+  refine forLoop_induct k _ init
+    (fun j hj s => ∀ idx : Fin n, s idx = if h : idx.val < 3 * j then
+        w (idx.val / 3) (by omega) ⟨idx.val % 3, Nat.mod_lt _ (by decide)⟩ else init idx) ?_ ?_ idx
+  · intro idx
+    rw [dif_neg (by omega)]
+  · intro j hj s ih idx
+    simp only [setSegment, Vec.of]
+    by_cases h1 : 3 * j ≤ idx.val ∧ idx.val < 3 * j + 3
+    · rw [dif_pos h1, dif_pos (by omega)]
+      exact loop_congr w _ _ (by omega) _ _ (by omega)
+    · rw [dif_neg h1, ih idx]
+      by_cases h2 : idx.val < 3 * j
+      · rw [dif_pos h2, dif_pos (by omega)]
+      · rw [dif_neg h2, dif_neg (by omega)]
+
+omit [Scalar α] in
+theorem seg_gq {k : Nat} (g : Vec α (4 + 3 * k)) : segment 4 (3 * k) g = SEK3.gq k g := rfl
+
+omit [Scalar α] in
+theorem seg_tw {k : Nat} (a : Vec α (3 + 3 * k)) : segment 3 (3 * k) a = SEK3.tw k a := rfl
+
+omit [Scalar α] in
+/-- a loop writing the `k` leading 3-segments, on top of a state whose last 4 entries are `q`, is `mkG` -/
+theorem forLoop_mkG {k : Nat} (w : (i : Nat) → i < k → Vec α 3) (init : Vec α (4 + 3 * k)) (q : Vec α 4)
+    (hq : ∀ r : Fin 4, init ⟨3 * k + r.val, by omega⟩ = q r) :
+    forLoop k (fun i hi v => setSegment v (3 * i) (w i hi)) init = SEK3.mkG k (fun i => w i.val i.isLt) q := by
+  apply Vec.ext'; intro idx
+  rw [forLoop_setSegment_get]
+  simp only [SEK3.mkG, Vec.of]
+  by_cases h : idx.val < 3 * k
+  · rw [dif_pos h, dif_pos h]
+  · rw [dif_neg h, dif_neg h]
+    have := hq ⟨idx.val - 3 * k, by omega⟩
+    rw [← this]
+    congr 1; apply Fin.ext; simp only []; omega
+
+omit [Scalar α] in
+theorem forLoop_mkT {k : Nat} (w : (i : Nat) → i < k → Vec α 3) (init : Vec α (3 + 3 * k)) (q : Vec α 3)
+    (hq : ∀ r : Fin 3, init ⟨3 * k + r.val, by omega⟩ = q r) :
+    forLoop k (fun i hi v => setSegment v (3 * i) (w i hi)) init = SEK3.mkT k (fun i => w i.val i.isLt) q := by
+  apply Vec.ext'; intro idx
+  rw [forLoop_setSegment_get]
+  simp only [SEK3.mkT, Vec.of]
+  by_cases h : idx.val < 3 * k
+  · rw [dif_pos h, dif_pos h]
+  · rw [dif_neg h, dif_neg h]
+    have := hq ⟨idx.val - 3 * k, by omega⟩
+    rw [← this]
+    congr 1; apply Fin.ext; simp only []; omega
+
+omit [Scalar α] in
+theorem setSegment_hi {n m : Nat} (v : Vec α n) (off : Nat) (w : Vec α m) (r : Fin m) (h : off + r.val < n) :
+    (setSegment v off w) ⟨off + r.val, h⟩ = w r := by
+  simp only [setSegment, Vec.of]
+  rw [dif_pos (by omega)]
+  congr 1; apply Fin.ext; simp only []; omega
+
+omit [Scalar α] in
+/-- entry of `mkG` in the leading part / in the quaternion part -/
+theorem mkG_lo {k : Nat} (p : Fin k → Vec α 3) (q : Vec α 4) (idx : Fin (4 + 3 * k)) (h : idx.val < 3 * k) :
+    SEK3.mkG k p q idx = p ⟨idx.val / 3, by omega⟩ ⟨idx.val % 3, Nat.mod_lt _ (by decide)⟩ := by
+  simp only [SEK3.mkG, Vec.of]; rw [dif_pos h]
+
+omit [Scalar α] in
+theorem mkG_hi {k : Nat} (p : Fin k → Vec α 3) (q : Vec α 4) (idx : Fin (4 + 3 * k)) (h : ¬ idx.val < 3 * k) :
+    SEK3.mkG k p q idx = q ⟨idx.val - 3 * k, by omega⟩ := by
+  simp only [SEK3.mkG, Vec.of]; rw [dif_neg h]
+
+omit [Scalar α] in
+theorem forLoop_setBlockCol_get {n m k : Nat} (w : (i : Nat) → i < k → Vec α 3) (init : Mat α n m)
+    (r : Fin n) (c : Fin m) :
+    (forLoop k (fun i hi M => setBlockCol M 0 (3 + i) (w i hi)) init) r c =
+      if h : r.val < 3 ∧ 3 ≤ c.val ∧ c.val < 3 + k then w (c.val - 3) (by omega) ⟨r.val, h.1⟩
+      else init r c := by
+  refine forLoop_induct k _ init
+    (fun j hj s => ∀ (r : Fin n) (c : Fin m), s r c = if h : r.val < 3 ∧ 3 ≤ c.val ∧ c.val < 3 + j then
+        w (c.val - 3) (by omega) ⟨r.val, h.1⟩ else init r c) ?_ ?_ r c
+  · intro r c
+    rw [dif_neg (by omega)]
+  · intro j hj s ih r c
+    simp only [setBlockCol, Mat.of]
+    by_cases h1 : (0 ≤ r.val ∧ r.val < 0 + 3) ∧ c.val = 3 + j
+    · rw [dif_pos h1, dif_pos (by omega)]
+      exact loop_congr w _ _ (by omega) _ _ (by omega)
+    · rw [dif_neg h1, ih r c]
+      by_cases h2 : r.val < 3 ∧ 3 ≤ c.val ∧ c.val < 3 + j
+      · rw [dif_pos h2, dif_pos (by omega)]
+      · rw [dif_neg h2, dif_neg (by omega)]
+
+omit [Scalar α] in
+theorem blockM_setBlock_same {n m : Nat} (M : Mat α n m) (r0 c0 : Nat) (B : Mat α 3 3) (hr : r0 + 3 ≤ n)
+    (hc : c0 + 3 ≤ m) : blockM 3 3 r0 c0 (setBlock M r0 c0 B) hr hc = B := by
+  apply Mat.ext'; intro i j
+  simp only [blockM, setBlock, Mat.of]
+  rw [dif_pos (by omega)]
+  congr 1 <;> (apply Fin.ext; simp only []; omega)
+
+omit [Scalar α] in
+theorem blockM_setBlock_disj {n m : Nat} (M : Mat α n m) (r0 c0 r1 c1 : Nat) (B : Mat α 3 3) (hr : r0 + 3 ≤ n)
+    (hc : c0 + 3 ≤ m) (h : r1 + 3 ≤ r0 ∨ r0 + 3 ≤ r1 ∨ c1 + 3 ≤ c0 ∨ c0 + 3 ≤ c1) :
+    blockM 3 3 r0 c0 (setBlock M r1 c1 B) hr hc = blockM 3 3 r0 c0 M hr hc := by
+  apply Mat.ext'; intro i j
+  simp only [blockM, setBlock, Mat.of]
+  rw [dif_neg (by omega)]
+
+omit [Scalar α] in
+theorem setBlock_setBlock_same {n m : Nat} (M : Mat α n m) (r0 c0 : Nat) (A B : Mat α 3 3) :
+    setBlock (setBlock M r0 c0 A) r0 c0 B = setBlock M r0 c0 B := by
+  apply Mat.ext'; intro i j
+  simp only [setBlock, Mat.of]
+  split_ifs <;> rfl
+
+omit [Scalar α] in
+theorem mat_congr (B : Mat α 3 3) {r r' c c' : Nat} (hr : r < 3) (hr' : r' < 3) (hc : c < 3) (hc' : c' < 3)
+    (er : r = r') (ec : c = c') : B ⟨r, hr⟩ ⟨c, hc⟩ = B ⟨r', hr'⟩ ⟨c', hc'⟩ := by subst er; subst ec; rfl
+
+omit [Scalar α] in
+theorem loopM_congr {k : Nat} (X : (i : Nat) → i < k → Mat α 3 3) {i i' : Nat} (hi : i < k) (hi' : i' < k)
+    (e : i = i') {r r' c c' : Nat} (hr : r < 3) (hr' : r' < 3) (hc : c < 3) (hc' : c' < 3)
+    (er : r = r') (ec : c = c') : X i hi ⟨r, hr⟩ ⟨c, hc⟩ = X i' hi' ⟨r', hr'⟩ ⟨c', hc'⟩ := by
+  subst e; subst er; subst ec; rfl
+
+/-- the loops of `Ad`, `ad`, `dr_exp`, `dr_expinv` of SE_K(3): starting from `R` in the top-left block of the
+    zero matrix, iteration `i` writes `X i` to block `(i, K)` and `R` to the diagonal block `(i+1, i+1)` -/
+theorem forLoop_blocks {k : Nat}
+    (body : (i : Nat) → i < k → Mat α (3 + 3 * k) (3 + 3 * k) → Mat α (3 + 3 * k) (3 + 3 * k))
+    (R : Mat α 3 3) (X : (i : Nat) → i < k → Mat α 3 3)
+    (hbody : ∀ i hi M, blockM 3 3 0 0 M = R →
+      body i hi M = setBlock (setBlock M (3 * i) (3 * k) (X i hi)) (3 + 3 * i) (3 + 3 * i) R) :
+    forLoop k body (setBlock (mzero (3 + 3 * k) (3 + 3 * k)) 0 0 R) =
+      SEK3.ofBlocks k (fun bi bj => if bi.val = bj.val then R
+        else if h : bj.val = k ∧ bi.val < k then X bi.val h.2 else mzero 3 3) := by
+  have key := forLoop_induct k body (setBlock (mzero (3 + 3 * k) (3 + 3 * k)) 0 0 R)
+    (fun j hj s => blockM 3 3 0 0 s = R ∧ ∀ (r c : Fin (3 + 3 * k)), s r c =
+      if h1 : r.val / 3 = c.val / 3 ∧ r.val / 3 ≤ j then
+        R ⟨r.val % 3, Nat.mod_lt _ (by decide)⟩ ⟨c.val % 3, Nat.mod_lt _ (by decide)⟩
+      else if h2 : c.val / 3 = k ∧ r.val / 3 < j then
+        X (r.val / 3) (by omega) ⟨r.val % 3, Nat.mod_lt _ (by decide)⟩ ⟨c.val % 3, Nat.mod_lt _ (by decide)⟩
+      else nat 0) ?_ ?_
+  · obtain ⟨_, hk⟩ := key
+    apply Mat.ext'; intro r c
+    rw [hk r c]
+    have hr := r.isLt; have hc := c.isLt
+    simp only [SEK3.ofBlocks, Mat.of]
+    by_cases h1 : r.val / 3 = c.val / 3
+    · rw [dif_pos ⟨h1, by omega⟩, if_pos h1]
+    · rw [dif_neg (fun h => h1 h.1), if_neg h1]
+      by_cases h2 : c.val / 3 = k ∧ r.val / 3 < k
+      · rw [dif_pos h2, dif_pos h2]
+      · rw [dif_neg h2, dif_neg h2]; rfl
+  · refine ⟨blockM_setBlock_same _ 0 0 R _ _, ?_⟩
+    intro r c
+    have hr := r.isLt; have hc := c.isLt
+    simp only [setBlock, mzero, Mat.of]
+    by_cases h1 : r.val / 3 = c.val / 3 ∧ r.val / 3 ≤ 0
+    · rw [dif_pos h1, dif_pos (by omega)]
+      exact mat_congr R _ _ _ _ (by omega) (by omega)
+    · rw [dif_neg h1, dif_neg (by omega), dif_neg (by omega)]
+  · intro j hj s ih
+    obtain ⟨hR, hs⟩ := ih
+    rw [hbody j hj s hR]
+    refine ⟨?_, ?_⟩
+    · rw [blockM_setBlock_disj _ _ _ _ _ _ _ _ (by omega), blockM_setBlock_disj _ _ _ _ _ _ _ _ (by omega)]
+      exact hR
+    · intro r c
+      have hr := r.isLt; have hc := c.isLt
+      simp only [setBlock, Mat.of]
+      by_cases hA : (3 + 3 * j ≤ r.val ∧ r.val < 3 + 3 * j + 3) ∧ (3 + 3 * j ≤ c.val ∧ c.val < 3 + 3 * j + 3)
+      · rw [dif_pos hA, dif_pos (by omega)]
+        exact mat_congr R _ _ _ _ (by omega) (by omega)
+      · rw [dif_neg hA]
+        by_cases hB : (3 * j ≤ r.val ∧ r.val < 3 * j + 3) ∧ (3 * k ≤ c.val ∧ c.val < 3 * k + 3)
+        · rw [dif_pos hB, dif_neg (by omega), dif_pos (by omega)]
+          exact loopM_congr X _ _ (by omega) _ _ _ _ (by omega) (by omega)
+        · rw [dif_neg hB, hs r c]
+          by_cases h1 : r.val / 3 = c.val / 3 ∧ r.val / 3 ≤ j
+          · rw [dif_pos h1, dif_pos (by omega)]
+          · rw [dif_neg h1]
+            by_cases h2 : c.val / 3 = k ∧ r.val / 3 < j
+            · rw [dif_pos h2, dif_neg (by omega), dif_pos (by omega)]
+            · rw [dif_neg h2, dif_neg (by omega), dif_neg (by omega)]
+
+/-! ### the generic layer (`LieGroupBase`, derivatives_impl.hpp): `SmoothModel/Gen/BaseSrc.lean`
+The members of `LieGroupBase<Derived>` are translated into terms over an abstract record of implementation
+functions `(I : LieModel α)` (tools/gen_base.py; table of meanings in SmoothModel/BaseSem.lean).  The ties
+`base_*`, `derivs_*` (files SrcTieImplC01..C05) say: applied to a model record `G` they ARE `G`'s own fields and
+the derived operations of Group.lean / Derivs.lean — for every `G` whose fields carry the
+`if constexpr (IsCommutative)` short-cuts (`LieModel.ShortCut`; proved below for the eight group records). -/
+theorem base_manifest_eq : BaseSrc.manifest =
+    ["setIdentity", "Identity", "matrix", "operator*", "operator*=", "inverse", "log", "Ad", "operator+",
+     "operator+=", "operator-", "exp", "hat", "vee", "ad", "lie_bracket", "dr_exp", "dr_expinv", "dl_exp",
+     "dl_expinv", "d2r_exp", "d2r_expinv", "d2l_exp", "d2l_expinv",
+     "dr_rminus", "d2r_rminus", "dr_rminus_squarednorm", "d2r_rminus_squarednorm"] := rfl
+theorem base_pinnedOnly_eq : BaseSrc.pinnedOnly =
+    ["derived", "cderived", "LieGroupBase", "using traits", "using Impl", "constexpr is_mutable",
+     "constexpr RepSize", "constexpr Dof", "constexpr Dim", "constexpr IsCommutative", "using Scalar",
+     "using Matrix", "using Tangent", "using TangentMap", "using Hessian", "using CastT", "using PlainObject",
+     "coeffs", "coeffs#2", "data", "data#2", "operator=", "dof", "setRandom", "Random", "isApprox", "cast",
+     "d_matrix_product", "d2_fog"] := rfl
+
+/-! the `LieModel` records carry the commutative short-cuts of the base class -/
+theorem shortcut_of_noncomm (G : LieModel α) (h : G.comm = false) : G.ShortCut := by
+  constructor <;> (intro hc; rw [h] at hc; cases hc)
+theorem shortcut_so2 : (SO2.model : LieModel α).ShortCut :=
+  ⟨fun _ _ => rfl, fun _ _ => rfl, fun _ _ => rfl, fun _ _ => rfl, fun _ _ => rfl, fun _ _ => rfl⟩
+theorem shortcut_c1 : (C1.model : LieModel α).ShortCut :=
+  ⟨fun _ _ => rfl, fun _ _ => rfl, fun _ _ => rfl, fun _ _ => rfl, fun _ _ => rfl, fun _ _ => rfl⟩
+theorem shortcut_tn {n : Nat} : (Tn.model n : LieModel α).ShortCut :=
+  ⟨fun _ _ => rfl, fun _ _ => rfl, fun _ _ => rfl, fun _ _ => rfl, fun _ _ => rfl, fun _ _ => rfl⟩
+theorem shortcut_se2 : (SE2.model : LieModel α).ShortCut :=
+  shortcut_of_noncomm _ rfl
+theorem shortcut_so3 : (SO3.model : LieModel α).ShortCut :=
+  shortcut_of_noncomm _ rfl
+theorem shortcut_se3 : (SE3.model : LieModel α).ShortCut :=
+  shortcut_of_noncomm _ rfl
+theorem shortcut_galilei : (Galilei.model : LieModel α).ShortCut :=
+  shortcut_of_noncomm _ rfl
+theorem shortcut_sek3 {k : Nat} : (SEK3.model k : LieModel α).ShortCut :=
+  shortcut_of_noncomm _ rfl
+
+/-! `RepSize`, `Dim`, `Dof`, `IsCommutative` of the Impl classes (parsed from the source) are those of the records -/
+theorem consts_so2 : ImplSrc.consts_SO2 = ((SO2.model : LieModel α).rep, (SO2.model : LieModel α).dim, (SO2.model : LieModel α).dof, (SO2.model : LieModel α).comm) := rfl
+theorem consts_c1 : ImplSrc.consts_C1 = ((C1.model : LieModel α).rep, (C1.model : LieModel α).dim, (C1.model : LieModel α).dof, (C1.model : LieModel α).comm) := rfl
+theorem consts_tn {n : Nat} : ImplSrc.consts_Tn n = ((Tn.model n : LieModel α).rep, (Tn.model n : LieModel α).dim, (Tn.model n : LieModel α).dof, (Tn.model n : LieModel α).comm) := rfl
+theorem consts_se2 : ImplSrc.consts_SE2 = ((SE2.model : LieModel α).rep, (SE2.model : LieModel α).dim, (SE2.model : LieModel α).dof, (SE2.model : LieModel α).comm) := rfl
+theorem consts_so3 : ImplSrc.consts_SO3 = ((SO3.model : LieModel α).rep, (SO3.model : LieModel α).dim, (SO3.model : LieModel α).dof, (SO3.model : LieModel α).comm) := rfl
+theorem consts_se3 : ImplSrc.consts_SE3 = ((SE3.model : LieModel α).rep, (SE3.model : LieModel α).dim, (SE3.model : LieModel α).dof, (SE3.model : LieModel α).comm) := rfl
+theorem consts_galilei : ImplSrc.consts_Galilei = ((Galilei.model : LieModel α).rep, (Galilei.model : LieModel α).dim, (Galilei.model : LieModel α).dof, (Galilei.model : LieModel α).comm) := rfl
+theorem consts_sek3 {k : Nat} : ImplSrc.consts_SEK3 k = ((SEK3.model k : LieModel α).rep, (SEK3.model k : LieModel α).dim, (SEK3.model k : LieModel α).dof, (SEK3.model k : LieModel α).comm) := rfl
+
+/-! the loop of `d2r_rminus` (`EigenSem.forLoop` over `Dof`) -/
+theorem blockcol_div {d j l : Nat} (hl : l < d) : (j * d + l) / d = j := by
+  have hd : 0 < d := by omega
+  rw [Nat.add_comm, Nat.add_mul_div_right _ _ hd, Nat.div_eq_of_lt hl, Nat.zero_add]
+/-- the loop of `d2r_rminus`: every `d × d` column block of `H` is multiplied on the right by `J` -/
+theorem forLoop_applyRightBlock {d : Nat} (H : Mat α d (d * d)) (J : Mat α d d) :
+    forLoop d (fun j hj res => BaseSem.applyRightBlock res j hj J) H =
+      .of (fun r c => vsum d (fun l =>
+        H r ⟨(c.val / d) * d + l.val, Derivs.idx_lt (Derivs.div_lt_of c.isLt) l.isLt⟩ *
+          J l ⟨c.val % d, Derivs.mod_lt_of c.isLt⟩)) := by
+  have key := forLoop_induct d (fun j hj res => BaseSem.applyRightBlock res j hj J) H
+    (fun j _ s => ∀ (r : Fin d) (c : Fin (d * d)), s r c =
+      if c.val / d < j then vsum d (fun l =>
+        H r ⟨(c.val / d) * d + l.val, Derivs.idx_lt (Derivs.div_lt_of c.isLt) l.isLt⟩ *
+          J l ⟨c.val % d, Derivs.mod_lt_of c.isLt⟩)
+      else H r c) ?_ ?_
+  · apply Mat.ext'; intro r c
+    rw [key r c, if_pos (Derivs.div_lt_of c.isLt)]; rfl
+  · intro r c
+    rw [if_neg (Nat.not_lt_zero _)]
+  · intro j hj s ih r c
+    simp only [BaseSem.applyRightBlock, Mat.of]
+    by_cases h1 : c.val / d = j
+    · rw [if_pos h1, if_pos (by omega)]
+      congr 1; funext l
+      rw [ih r ⟨j * d + l.val, _⟩, if_neg (by simp only []; rw [blockcol_div l.isLt]; omega)]
+      subst h1; rfl
+    · rw [if_neg h1, ih r c]
+      by_cases h2 : c.val / d < j
+      · rw [if_pos h2, if_pos (by omega)]
+      · rw [if_neg h2, if_neg (by omega)]
 
 end SrcTieImpl
